@@ -257,10 +257,14 @@ def _tolist(x):
 OUTSIDE = ("OutsideModel", "OutOfFuel")
 
 
-def random_correspondence(ctx, res, programs, max_keys=5000, keep_runs=True, ctor_limit=1.5):
+def random_correspondence(ctx, res, programs, max_keys=5000, keep_runs=True, ctor_limit=1.5, thm_keys=300):
     """See module docstring.  Designs on which the real constructor needs more than
     `ctor_limit` seconds (its `sum_combination_products` loop visits every
-    permutation) are counted as "real-too-slow" and not compared."""
+    permutation) are counted as "real-too-slow" and not compared.
+    For designs inside the proved fragment (Frag.frag0) with at most `thm_keys`
+    keys the executable statements of the theorems of Properties/C04-C06
+    (sound / injective / complete against Sem.all_valid / count) are evaluated on
+    the model: rec["thm"] = ("frag0", nkeys, sound, inj, complete, count) | ("outside",) | ("big", n)."""
     recs = []
     lines = []
     for program in programs:
@@ -289,6 +293,7 @@ def random_correspondence(ctx, res, programs, max_keys=5000, keep_runs=True, cto
         rec["line_idx"] = len(lines)
         lines.append("(rg_enum %s)" % wire)
         lines.append("(rg_all %s %d)" % (wire, max_keys))
+        lines.append("(rg_thm %s %d)" % (wire, thm_keys))
     outs = common.run_model(lines) if lines else []
     for rec in recs:
         if "line_idx" not in rec:
@@ -297,6 +302,10 @@ def random_correspondence(ctx, res, programs, max_keys=5000, keep_runs=True, cto
         program, blk = rec["program"], rec["block"]
         m_enum = parse_enum(outs[rec["line_idx"]])
         m_all = parse_all(outs[rec["line_idx"] + 1])
+        t = outs[rec["line_idx"] + 2]
+        rec["thm"] = tuple(_canon(common.parse_sexp(t)[0])) if not t.startswith("!") else ("model-crash", t)
+        if rec["thm"][0] == "frag0":
+            res.layer("L8-theorem-statements", all(x is True for x in rec["thm"][2:]))
         rec["enum_model"] = m_enum
         r_en = rec["r_en"]
         if m_enum[0] == "model-crash" or m_all[0] == "model-crash":
@@ -422,3 +431,21 @@ def summarize(recs):
             s = "enumerator-raises:%s@%s" % (r["enum_real"][1], r["enum_real"][2])
         hist[s] = hist.get(s, 0) + 1
     return hist
+
+
+def reported_count_finding(rec, n_valid, rejection_free):
+    """C06, second half: for a design that needs no rejection step,
+    metrics['solution_count'] must equal the number of valid sequences.
+    RandomGen reports `enumerator.solution_count()`, the count of ONE round.
+    Returns None or (sig, description) with sig `random:solution-count:per-round`."""
+    en = rec.get("enumerator")
+    if en is None or not rejection_free:
+        return None
+    reported = en.solution_count()
+    if reported == n_valid:
+        return None
+    T, rounds, leftover = real_geometry(rec["block"], en)
+    return ("random:solution-count:per-round",
+            "metrics['solution_count'] = %d is the count of one round; the design has %d valid sequences "
+            "(= preamble %d * %d^%d rounds * leftover %d)" % (
+                reported, n_valid, en.preamble_solution_count(), reported, rounds, en.leftover_solution_count()))
